@@ -14,8 +14,6 @@
 mod hist;
 #[path = "../../cstore/src/exec.rs"]
 mod exec;
-#[path = "../../cstore/src/hgen.rs"]
-mod hgen;
 
 use std::collections::{BTreeMap, BTreeSet, HashMap};
 use std::path::{Path, PathBuf};
@@ -28,7 +26,7 @@ use sierradb::id::get_uuid_flag;
 use sierradb::{IterDirection, StreamId};
 use uuid::Uuid;
 
-use hist::Hist;
+use hist::{Ev, Hist, Op, Xv};
 
 #[derive(Clone, Debug)]
 struct SegEv { eid: u64, uuid: Uuid, pid: u16, seq: u64, sid: u64, ver: u64 }
@@ -190,16 +188,21 @@ async fn lookups(db: &Database, evs: &[SegEv]) -> (Tally, Tally, Tally) {
 }
 
 async fn observe(h: &Hist, db_dir: &Path, sg: &Sealed, others: &[SegEv]) -> String {
+    let t0 = std::time::Instant::now();
     let db = match open_db(h, db_dir) { Ok(db) => db, Err(e) => return format!("open=err:{e}") };
+    let t1 = t0.elapsed();
     let n = sg.evs.len();
     let (a, b, c) = lookups(&db, &sg.evs).await;
+    let t2 = t0.elapsed();
     // the other segments must be unaffected: every other event by id
     let mut miss = 0;
     for e in others {
         match tokio::time::timeout(Duration::from_secs(20), db.read_event(e.pid, e.uuid)).await { Ok(Ok(Some(r))) if r.event_id == e.uuid => {}, _ => miss += 1 }
     }
+    let t3 = t0.elapsed();
     db.shutdown().await;
     drop(db);
+    if std::env::var("SV_TIMING").is_ok() { eprintln!("open {:?} lookups {:?} others {:?} shutdown {:?}", t1, t2 - t1, t3 - t2, t0.elapsed() - t3); }
     let mut s = format!("open=ok id={}/{} st={}/{} pt={}/{} oth={}", a.found, n, b.found, n, c.found, n, if miss == 0 { "ok".to_string() } else { format!("miss{miss}") });
     let fails: Vec<String> = a.fails.iter().chain(b.fails.iter()).chain(c.fails.iter()).take(3).cloned().collect();
     if !fails.is_empty() { s.push_str(" !"); s.push_str(&fails.join(";")); }
@@ -224,6 +227,33 @@ fn cuts(lay: (u64, u64, u64), rsize: u64, rng: &mut Rng, thorough: bool) -> Vec<
     v.retain(|p| *p > 0 && *p < total);
     v.sort(); v.dedup();
     v
+}
+
+/// a history that seals segments: mostly large events (a 128 KiB segment rolls over after a few of them), some
+/// medium and small ones, multi-event transactions, several streams / partition keys / partitions / buckets,
+/// now and then a clean reopen or a crash that tears the live segment's last transaction
+fn gen_history(rng: &mut Rng, thorough: bool) -> Hist {
+    let buckets = *rng.pick(&[1u16, 1, 2]);
+    let nk = rng.range(2, 4) as usize;
+    let base = rng.below(50) as u16;
+    let keys: Vec<u16> = (0..nk).map(|i| match i { 0 | 1 => base, _ => base + i as u16 }).collect();
+    let mut ops = Vec::new();
+    let nappend = if thorough { rng.range(10, 36) } else { rng.range(7, 16) } as usize;
+    let mut eid = 0u64;
+    for _ in 0..nappend {
+        let k = rng.below(nk as u64) as usize;
+        let nev = *rng.pick(&[1usize, 1, 1, 2, 2, 3, 4]);
+        let streams: Vec<u64> = (0..8).filter(|s| (*s as usize) % nk == k).collect();
+        let mut evs = Vec::new();
+        for _ in 0..nev {
+            let len = match rng.below(10) { 0..=4 => rng.range(15_000, 45_000), 5..=7 => rng.range(1_500, 6_000), _ => *rng.pick(&[0u64, 10, 127, 128, 300]) } as usize;
+            evs.push(Ev { eid, sid: *rng.pick(&streams), xv: Xv::Any, len, rnd: rng.chance(1, 2), ts_ok: true });
+            eid += 1;
+        }
+        ops.push(Op::Append { k, xseq: Xv::Any, evs, roll: false, big: false });
+        match rng.below(16) { 0 => ops.push(Op::Reopen), 1 => ops.push(Op::Crash { keep: rng.below(nev as u64 + 2) as usize, extra: *rng.pick(&[0usize, 3, 9, 100]) }), _ => {} }
+    }
+    Hist { buckets, seg: 131072, comp: rng.chance(1, 2), keys, ops }
 }
 
 struct HistRun { h: Hist, line: String, root: PathBuf, db_dir: PathBuf, sealed: Vec<Sealed> }
@@ -293,13 +323,15 @@ fn main() {
     let mut rng = Rng::new(a.seed ^ 0xC06);
     let mut n = 0;
     let mut hists = 0;
-    let secs: u64 = std::env::var("SV_BUDGET_S").ok().and_then(|x| x.parse().ok()).unwrap_or(if thorough { 840 } else { 70 });
+    let secs: u64 = std::env::var("SV_BUDGET_S").ok().and_then(|x| x.parse().ok()).unwrap_or(if thorough { 840 } else { 55 });
     let t0 = std::time::Instant::now();
     while n < budget && hists < 4 * budget && t0.elapsed().as_secs() < secs {
         hists += 1;
         let mut r = rng.fork();
-        let h = hgen::Gen::new(&mut r, "C06").history(thorough);
+        let h = gen_history(&mut r, thorough);
+        let th = std::time::Instant::now();
         let hr = run_history(&rt, h);
+        if std::env::var("SV_TIMING").is_ok() { eprintln!("history: {} ops, {} sealed segments, {:?}", hr.h.ops.len(), hr.sealed.len(), th.elapsed()); }
         if hr.sealed.is_empty() { let _ = std::fs::remove_dir_all(&hr.root); continue; }
         // all (segment, file, state) of this history, shuffled; structural states first
         let mut muts: Vec<(usize, char, St)> = Vec::new();
